@@ -227,6 +227,76 @@ theorem traj_eval (o : Order) (d : Nat) (hs : List K) (P : List (Vec K)) (t0 : K
   exact range_getD_eq (c2 _ hmem)
 
 
+/-- coefficient list of the `k`-th derivative of a polynomial given by its coefficient list (falling-factorial factors, as the
+derivative tables of `PPolyND` store them) -/
+def dRow (nc k : Nat) (l : List K) : List K :=
+  (List.range (nc - k)).map (fun m => (lit (factorEntry (m + k) k) : K) * l.getD (m + k) (lit 0))
+
+/-- **every derivative order**: coordinate `j` of `getTrajectory().evaluate(t, k)` is the `k`-th derivative of the polynomial
+of the segment containing `t`, at local time `t − t_i` -/
+theorem traj_eval_k (o : Order) (d : Nat) (hs : List K) (P : List (Vec K)) (t0 : K) (bc : BC K) (hne : hs ≠ [])
+    (hpos : ∀ h ∈ hs, 0 < h) (hP : P.length = hs.length + 1) (t : K) (k : Nat) (hk : k < o.coeffNum) :
+    ((buildND o d hs P t0 bc).ppoly.evaluate t (k : Int)).2 = (List.range d).map (fun j =>
+      hornerS (t - (cumulative t0 hs).getD (specIdx (cumulative t0 hs) t) 0)
+        (dRow o.coeffNum k ((colOf o hs P bc j).coeffs.getD (specIdx (cumulative t0 hs) t) []))) := by
+  have h1 : 1 ≤ hs.length := by cases hs with
+    | nil => exact absurd rfl hne
+    | cons _ _ => simp
+  obtain ⟨nk, hnk⟩ : ∃ nk, o.coeffNum - k = nk + 1 := ⟨o.coeffNum - k - 1, by omega⟩
+  have hsorted := cumulative_sorted t0 hs hpos
+  have hidx : specIdx (cumulative t0 hs) t < hs.length := by
+    have := (specIdx_char (cumulative t0 hs) t hsorted hs.length (cumulative_length t0 hs) h1).1
+    omega
+  rw [ppoly_eq o d hs P t0 bc hne]
+  obtain ⟨p, hp⟩ : ∃ p : PPoly K, p = pubPoly o d hs P t0 bc := ⟨_, rfl⟩
+  rw [← hp]
+  have hci : CacheInv p := by
+    constructor
+    · intro h; rw [hp] at h; simp [pubPoly] at h
+    · intro h; rw [hp] at h; simp [pubPoly] at h
+    · intro h; exfalso; rw [hp] at h; simp only [pubPoly] at h; omega
+  obtain ⟨he, _, _⟩ := evaluate_spec p hci t (k : Int)
+  have hpn : p.numCoeffs = o.coeffNum := by rw [hp]; rfl
+  have hpb : p.breakpoints = cumulative t0 hs := by rw [hp]; rfl
+  have hps : p.numSegments = hs.length := by rw [hp]; rfl
+  have hpc : p.coeffs = (buildND o d hs P t0 bc).coeffs := by rw [hp]; rfl
+  have hfs := findSegment_spec p t (by rw [hpb]; exact hsorted) (by rw [hpb, hps, cumulative_length]) (by rw [hps]; exact h1)
+  rw [he, if_neg (by rw [hpn]; push_cast; omega), hfs, hpb]
+  set i := specIdx (cumulative t0 hs) t with hi
+  simp only [lit_eq, Nat.cast_zero]
+  unfold evalSegPure
+  rw [if_neg (by rw [hpn]; simp; omega)]
+  have hcl : (buildND o d hs P t0 bc).coeffs.length = hs.length := by simp [buildND, stack]
+  have hi' : i < (buildND o d hs P t0 bc).coeffs.length := by rw [hcl]; exact hidx
+  have hrowk : ((derivTable p).getD (k : Int).toNat []).getD i []
+      = (List.range (o.coeffNum - k)).map (fun m => vscale (lit (factorEntry (m + k) k) : K)
+          (((buildND o d hs P t0 bc).coeffs.getD i []).getD (m + k) [])) := by
+    simp only [derivTable, hpn, hpc, Int.toNat_natCast, List.getD_eq_getElem?_getD, List.getElem?_map,
+      List.getElem?_range hk, Option.map_some, Option.getD_some, List.getElem?_eq_getElem hi']
+  rw [hrowk]
+  have hblk : (buildND o d hs P t0 bc).coeffs.getD i []
+      = (List.range o.coeffNum).map (fun q => (List.range d).map (fun j =>
+          ((colOf o hs P bc j).coeffs.getD i []).getD q (lit 0))) := by
+    rw [List.getD_eq_getElem?_getD, List.getElem?_eq_getElem hi']
+    simp only [buildND, stack, List.getElem_map, List.getElem_range, List.map_map, Option.getD_some]
+    rfl
+  rw [hblk]
+  have hrows : (List.range (o.coeffNum - k)).map (fun m => vscale (lit (factorEntry (m + k) k) : K)
+        (((List.range o.coeffNum).map (fun q => (List.range d).map (fun j =>
+          ((colOf o hs P bc j).coeffs.getD i []).getD q (lit 0)))).getD (m + k) []))
+      = (List.range (o.coeffNum - k)).map (fun m => (List.range d).map (fun j =>
+          (lit (factorEntry (m + k) k) : K) * ((colOf o hs P bc j).coeffs.getD i []).getD (m + k) (lit 0))) := by
+    apply List.map_congr_left
+    intro m hm
+    have hm' : m + k < o.coeffNum := by have := List.mem_range.mp hm; omega
+    rw [List.getD_eq_getElem?_getD, List.getElem?_map, List.getElem?_range hm']
+    simp only [Option.map_some, Option.getD_some, vscale, List.map_map]
+    rfl
+  rw [hrows, hnk, horner_stack]
+  apply List.map_congr_left
+  intro j _
+  rw [dRow, hnk]
+
 /-! ## knots -/
 
 theorem cum_getD_succ (t0 : K) (hs : List K) (i : Nat) (hi : i < hs.length) :
@@ -408,5 +478,197 @@ theorem traj_at_knot (o : Order) (d : Nat) (hs : List K) (P : List (Vec K)) (t0 
     have hstep := cum_getD_succ t0 hs (hs.length - 1) hm
     rw [Nat.sub_add_cancel h1] at hstep
     rw [hstep, add_sub_cancel_left, (hint (hs.length - 1) hm).2, hcol, Nat.sub_add_cancel h1]
+
+
+/-! ## boundary states through the published trajectory -/
+
+theorem dRow_cubic1 (c : Cubic.C4 K) (t : K) : hornerS t (dRow 4 1 c.toList) = ev1 c t := by
+  simp [dRow, factorEntry, factorAux, Cubic.C4.toList, hornerS, List.range_succ, ev1, lit_eq]
+  ring
+theorem dRow_quintic1 (c : Quintic.C6 K) (t : K) : hornerS t (dRow 6 1 c.toList) = q_ev1 c t := by
+  simp [dRow, factorEntry, factorAux, Quintic.C6.toList, hornerS, List.range_succ, q_ev1, lit_eq]
+  ring
+theorem dRow_quintic2 (c : Quintic.C6 K) (t : K) : hornerS t (dRow 6 2 c.toList) = q_ev2 c t := by
+  simp [dRow, factorEntry, factorAux, Quintic.C6.toList, hornerS, List.range_succ, q_ev2, lit_eq]
+  ring
+theorem dRow_septic1 (c : Septic.C8 K) (t : K) : hornerS t (dRow 8 1 c.toList) = s_ev1 c t := by
+  simp [dRow, factorEntry, factorAux, Septic.C8.toList, hornerS, List.range_succ, s_ev1, lit_eq]
+  ring
+theorem dRow_septic2 (c : Septic.C8 K) (t : K) : hornerS t (dRow 8 2 c.toList) = s_ev2 c t := by
+  simp [dRow, factorEntry, factorAux, Septic.C8.toList, hornerS, List.range_succ, s_ev2, lit_eq]
+  ring
+theorem dRow_septic3 (c : Septic.C8 K) (t : K) : hornerS t (dRow 8 3 c.toList) = s_ev3 c t := by
+  simp [dRow, factorEntry, factorAux, Septic.C8.toList, hornerS, List.range_succ, s_ev3, lit_eq]
+  ring
+
+theorem cubicSpec_last (vn : K) (hs Ps : List K) (cs : List (Cubic.C4 K)) (h : CubicSpec vn hs Ps cs) (z : Cubic.C4 K) :
+    ev1 (cs.getD (hs.length - 1) z) (hs.getD (hs.length - 1) 0) = vn := by
+  induction hs generalizing Ps cs with
+  | nil => cases Ps <;> cases cs <;> simp [CubicSpec] at h
+  | cons a hs ih =>
+    cases hs with
+    | nil =>
+      match Ps, cs, h with
+      | [p0, p1], [c], h => simpa using h.2.2
+    | cons a' hs' =>
+      match Ps, cs, h with
+      | p0 :: p1 :: ps, c :: c' :: cs', h =>
+        have := ih (p1 :: ps) (c' :: cs') h.2.2.2.2
+        simpa using this
+
+/-- per-piece end conditions carried by `QuinticHermite` -/
+theorem quinticHermite_piece (hs Ps : List K) (ks : List (V2 K)) (cs : List (Quintic.C6 K)) (h : QuinticHermite hs Ps ks cs)
+    (i : Nat) (hi : i < hs.length) (z : Quintic.C6 K) (zk : V2 K) :
+    q_ev1 (cs.getD i z) 0 = (ks.getD i zk).x ∧ q_ev2 (cs.getD i z) 0 = (ks.getD i zk).y ∧
+    q_ev1 (cs.getD i z) (hs.getD i 0) = (ks.getD (i + 1) zk).x ∧ q_ev2 (cs.getD i z) (hs.getD i 0) = (ks.getD (i + 1) zk).y := by
+  induction hs generalizing Ps ks cs i with
+  | nil => simp at hi
+  | cons a hs ih =>
+    match Ps, ks, cs, h with
+    | p0 :: p1 :: ps, k0 :: k1 :: ks', c :: cs', h =>
+      obtain ⟨_, e1, e2, _, e4, e5, hrest⟩ := h
+      cases i with
+      | zero => simp only [List.getD_cons_zero, List.getD_cons_succ]; exact ⟨e1, e2, e4, e5⟩
+      | succ i =>
+        have := ih (p1 :: ps) (k1 :: ks') cs' hrest i (by simpa using hi)
+        simpa only [List.getD_cons_succ] using this
+
+theorem septicHermite_piece (hs Ps : List K) (ks : List (V3 K)) (cs : List (Septic.C8 K)) (h : SepticHermite hs Ps ks cs)
+    (i : Nat) (hi : i < hs.length) (z : Septic.C8 K) (zk : V3 K) :
+    s_ev1 (cs.getD i z) 0 = (ks.getD i zk).x ∧ s_ev2 (cs.getD i z) 0 = (ks.getD i zk).y ∧ s_ev3 (cs.getD i z) 0 = (ks.getD i zk).z ∧
+    s_ev1 (cs.getD i z) (hs.getD i 0) = (ks.getD (i + 1) zk).x ∧ s_ev2 (cs.getD i z) (hs.getD i 0) = (ks.getD (i + 1) zk).y ∧
+    s_ev3 (cs.getD i z) (hs.getD i 0) = (ks.getD (i + 1) zk).z := by
+  induction hs generalizing Ps ks cs i with
+  | nil => simp at hi
+  | cons a hs ih =>
+    match Ps, ks, cs, h with
+    | p0 :: p1 :: ps, k0 :: k1 :: ks', c :: cs', h =>
+      obtain ⟨_, e1, e2, e3, _, e5, e6, e7, hrest⟩ := h
+      cases i with
+      | zero => simp only [List.getD_cons_zero, List.getD_cons_succ]; exact ⟨e1, e2, e3, e5, e6, e7⟩
+      | succ i =>
+        have := ih (p1 :: ps) (k1 :: ks') cs' hrest i (by simpa using hi)
+        simpa only [List.getD_cons_succ] using this
+
+theorem getD_of_head_last {β : Type} (l : List β) (n : Nat) (a b z : β) (hl : l.length = n + 1) (hh : l.head? = some a)
+    (hlast : l.getLast? = some b) : l.getD 0 z = a ∧ l.getD n z = b := by
+  refine ⟨?_, ?_⟩
+  · cases l with
+    | nil => simp at hh
+    | cons x l' => simp at hh; simp [hh]
+  · have hne : l ≠ [] := by intro h; rw [h] at hl; simp at hl
+    rw [List.getLast?_eq_some_getLast hne] at hlast
+    have := Option.some.inj hlast
+    rw [← this, List.getLast_eq_getElem, List.getD_eq_getElem?_getD, List.getElem?_eq_getElem (by omega)]
+    simp [hl]
+
+
+def bcStart (bc : BC K) : Nat → Vec K
+  | 1 => bc.v0 | 2 => bc.a0 | _ => bc.j0
+def bcEnd (bc : BC K) : Nat → Vec K
+  | 1 => bc.vn | 2 => bc.an | _ => bc.jn
+
+theorem map_getD' {β : Type} (cs : List β) (f : β → List K) (i : Nat) (z : β) (hi : i < cs.length) :
+    (cs.map f).getD i [] = f (cs.getD i z) := by
+  simp [List.getD_eq_getElem?_getD, List.getElem?_map, List.getElem?_eq_getElem hi]
+
+/-- first and last piece of every coordinate carry the boundary derivatives the order uses -/
+theorem colOf_boundary (o : Order) (hs : List K) (P : List (Vec K)) (bc : BC K) (j : Nat) (hpos : ∀ h ∈ hs, 0 < h)
+    (hne : hs ≠ []) (hP : P.length = hs.length + 1) (k : Nat) (hk1 : 1 ≤ k) (hk2 : 2 * k + 1 < o.coeffNum) :
+    hornerS 0 (dRow o.coeffNum k ((colOf o hs P bc j).coeffs.getD 0 [])) = getC (bcStart bc k) j ∧
+    hornerS (hs.getD (hs.length - 1) 0) (dRow o.coeffNum k ((colOf o hs P bc j).coeffs.getD (hs.length - 1) []))
+      = getC (bcEnd bc k) j := by
+  have hPj : (P.map (fun r => getC r j)).length = hs.length + 1 := by simp [hP]
+  have hne0 : ∀ h ∈ hs, h ≠ 0 := fun h hh => (hpos h hh).ne'
+  have h1 : 1 ≤ hs.length := by cases hs with
+    | nil => exact absurd rfl hne
+    | cons _ _ => simp
+  have hm : hs.length - 1 < hs.length := by omega
+  cases o with
+  | cubic =>
+    have hk : k = 1 := by simp [Order.coeffNum] at hk2; omega
+    subst hk
+    obtain ⟨hspec, hfirst⟩ := cubic_build_spec (getC bc.v0 j) (getC bc.vn j) hs _ (posList_of_forall hs hpos) hne hPj
+    have hcl := NDEnergy.cubic_build_length hs _ (getC bc.v0 j) (getC bc.vn j) hne hPj
+    simp only [colOf, colCubic, Order.coeffNum, bcStart, bcEnd]
+    rw [map_getD' _ _ 0 ⟨0, 0, 0, 0⟩ (by rw [hcl]; omega), map_getD' _ _ (hs.length - 1) ⟨0, 0, 0, 0⟩ (by rw [hcl]; exact hm),
+      dRow_cubic1, dRow_cubic1]
+    refine ⟨?_, cubicSpec_last _ hs _ _ hspec _⟩
+    match hb : Cubic.build hs (P.map (fun r => getC r j)) (getC bc.v0 j) (getC bc.vn j), hcl with
+    | [], hcl => simp at hcl; omega
+    | c :: cs', _ => simpa using hfirst c cs' hb
+  | quintic =>
+    have hin : (bback (bfwd none (Quintic.rows ⟨getC bc.v0 j, getC bc.a0 j⟩ ⟨getC bc.vn j, getC bc.an j⟩
+        (Quintic.mkSegs hs (P.map (fun r => getC r j)))))).length + 1 = hs.length := by
+      rw [NDAdj.bback_length2, NDAdj.bfwd_length2, QuinticAdj.rows_length, NDEnergy.qmkSegs_length hs _ hPj]; omega
+    obtain ⟨hh, hhead, hlast⟩ := quintic_build_hermite hs _ ⟨getC bc.v0 j, getC bc.a0 j⟩ ⟨getC bc.vn j, getC bc.an j⟩ hne0 hPj hin
+    have hcl := NDEnergy.quintic_build_length hs _ (⟨getC bc.v0 j, getC bc.a0 j⟩ : V2 K) ⟨getC bc.vn j, getC bc.an j⟩ hne hPj
+    have hkl : (Quintic.buildFull hs (P.map (fun r => getC r j)) ⟨getC bc.v0 j, getC bc.a0 j⟩
+        ⟨getC bc.vn j, getC bc.an j⟩).knots.length = hs.length + 1 := by
+      show (_ :: bback (bfwd none _) ++ [_]).length = _
+      simp only [List.length_cons, List.length_append, List.length_nil]; omega
+    obtain ⟨g0, gn⟩ := getD_of_head_last _ hs.length _ _ (⟨0, 0⟩ : V2 K) hkl hhead hlast
+    have p0 := quinticHermite_piece hs _ _ _ hh 0 (by omega) ⟨0, 0, 0, 0, 0, 0⟩ ⟨0, 0⟩
+    have pn := quinticHermite_piece hs _ _ _ hh (hs.length - 1) hm ⟨0, 0, 0, 0, 0, 0⟩ ⟨0, 0⟩
+    rw [Nat.sub_add_cancel h1, gn] at pn
+    rw [g0] at p0
+    simp only [colOf, colQuintic, Order.coeffNum]
+    rw [map_getD' _ _ 0 ⟨0, 0, 0, 0, 0, 0⟩ (by rw [hcl]; omega),
+      map_getD' _ _ (hs.length - 1) ⟨0, 0, 0, 0, 0, 0⟩ (by rw [hcl]; exact hm)]
+    have hk : k = 1 ∨ k = 2 := by simp [Order.coeffNum] at hk2; omega
+    rcases hk with rfl | rfl
+    · rw [dRow_quintic1, dRow_quintic1]; exact ⟨p0.1, pn.2.2.1⟩
+    · rw [dRow_quintic2, dRow_quintic2]; exact ⟨p0.2.1, pn.2.2.2⟩
+  | septic =>
+    have hin : (bback (bfwd none (Septic.rows ⟨getC bc.v0 j, getC bc.a0 j, getC bc.j0 j⟩
+        ⟨getC bc.vn j, getC bc.an j, getC bc.jn j⟩ (Septic.mkSegs hs (P.map (fun r => getC r j)))))).length + 1 = hs.length := by
+      rw [NDAdj.bback_length3, NDAdj.bfwd_length3, SepticAdj.rows_length, NDEnergy.smkSegs_length hs _ hPj]; omega
+    obtain ⟨hh, hhead, hlast⟩ := septic_build_hermite hs _ ⟨getC bc.v0 j, getC bc.a0 j, getC bc.j0 j⟩
+      ⟨getC bc.vn j, getC bc.an j, getC bc.jn j⟩ hne0 hPj hin
+    have hcl := NDEnergy.septic_build_length hs _ (⟨getC bc.v0 j, getC bc.a0 j, getC bc.j0 j⟩ : V3 K)
+      ⟨getC bc.vn j, getC bc.an j, getC bc.jn j⟩ hne hPj
+    have hkl : (Septic.buildFull hs (P.map (fun r => getC r j)) ⟨getC bc.v0 j, getC bc.a0 j, getC bc.j0 j⟩
+        ⟨getC bc.vn j, getC bc.an j, getC bc.jn j⟩).knots.length = hs.length + 1 := by
+      show (_ :: bback (bfwd none _) ++ [_]).length = _
+      simp only [List.length_cons, List.length_append, List.length_nil]; omega
+    obtain ⟨g0, gn⟩ := getD_of_head_last _ hs.length _ _ (⟨0, 0, 0⟩ : V3 K) hkl hhead hlast
+    have p0 := septicHermite_piece hs _ _ _ hh 0 (by omega) ⟨0, 0, 0, 0, 0, 0, 0, 0⟩ ⟨0, 0, 0⟩
+    have pn := septicHermite_piece hs _ _ _ hh (hs.length - 1) hm ⟨0, 0, 0, 0, 0, 0, 0, 0⟩ ⟨0, 0, 0⟩
+    rw [Nat.sub_add_cancel h1, gn] at pn
+    rw [g0] at p0
+    simp only [colOf, colSeptic, Order.coeffNum]
+    rw [map_getD' _ _ 0 ⟨0, 0, 0, 0, 0, 0, 0, 0⟩ (by rw [hcl]; omega),
+      map_getD' _ _ (hs.length - 1) ⟨0, 0, 0, 0, 0, 0, 0, 0⟩ (by rw [hcl]; exact hm)]
+    have hk : k = 1 ∨ k = 2 ∨ k = 3 := by simp [Order.coeffNum] at hk2; omega
+    rcases hk with rfl | rfl | rfl
+    · rw [dRow_septic1, dRow_septic1]; exact ⟨p0.1, pn.2.2.2.1⟩
+    · rw [dRow_septic2, dRow_septic2]; exact ⟨p0.2.1, pn.2.2.2.2.1⟩
+    · rw [dRow_septic3, dRow_septic3]; exact ⟨p0.2.2.1, pn.2.2.2.2.2⟩
+
+/-- **C01, boundary states end to end**: derivative `k` (1 … s−1) of the published trajectory at the first knot is the start
+boundary state, at the last knot the end boundary state — every order, dimension, N ≥ 1, positive durations -/
+theorem traj_boundary (o : Order) (d : Nat) (hs : List K) (P : List (Vec K)) (t0 : K) (bc : BC K) (hne : hs ≠ [])
+    (hpos : ∀ h ∈ hs, 0 < h) (hP : P.length = hs.length + 1) (k : Nat) (hk1 : 1 ≤ k) (hk2 : 2 * k + 1 < o.coeffNum) :
+    ((buildND o d hs P t0 bc).ppoly.evaluate ((cumulative t0 hs).getD 0 0) (k : Int)).2
+      = (List.range d).map (fun j => getC (bcStart bc k) j) ∧
+    ((buildND o d hs P t0 bc).ppoly.evaluate ((cumulative t0 hs).getD hs.length 0) (k : Int)).2
+      = (List.range d).map (fun j => getC (bcEnd bc k) j) := by
+  have h1 : 1 ≤ hs.length := by cases hs with
+    | nil => exact absurd rfl hne
+    | cons _ _ => simp
+  have hk : k < o.coeffNum := by omega
+  refine ⟨?_, ?_⟩
+  · rw [traj_eval_k o d hs P t0 bc hne hpos hP _ k hk, specIdx_knot t0 hs hpos 0 (by omega), sub_self]
+    apply List.map_congr_left
+    intro j _
+    exact (colOf_boundary o hs P bc j hpos hne hP k hk1 hk2).1
+  · rw [traj_eval_k o d hs P t0 bc hne hpos hP _ k hk, specIdx_last t0 hs hpos hne]
+    have hm : hs.length - 1 < hs.length := by omega
+    have hstep := cum_getD_succ t0 hs (hs.length - 1) hm
+    rw [Nat.sub_add_cancel h1] at hstep
+    rw [hstep, add_sub_cancel_left]
+    apply List.map_congr_left
+    intro j _
+    exact (colOf_boundary o hs P bc j hpos hne hP k hk1 hk2).2
 
 end Traj
